@@ -366,6 +366,12 @@ func genCodecScenario(r *core.Rand, run int) *CodecScenario {
 			case 2: // 10 bytes, overflows uint64
 				f.Prefix = []byte{0xff, 0xff, 0xff, 0xff, 0xff, 0xff, 0xff, 0xff, 0xff, 0x7f}
 				f.BadSize = true
+				if r.Chance(2, 3) {
+					// ... whose low 64 bits are a small, plausible length (a
+					// decoder that drops the bits above the 64th takes the
+					// bytes that follow for a message): tenth byte 0x02..0x7f
+					f.Prefix = []byte{byte(r.Intn(24)) | 0x80, 0x80, 0x80, 0x80, 0x80, 0x80, 0x80, 0x80, 0x80, byte(2 + r.Intn(0x7e))}
+				}
 			case 3: // 11 continuation bytes
 				f.Prefix = bytes.Repeat([]byte{0x80}, 11)
 				f.BadSize = true
